@@ -63,3 +63,14 @@ Theorem C20_never_local_on_follower_partial : forall n r k e nf u p,
   h_results o <> SFollower /\ h_index o <> SFollower /\ h_served_by o <> SFollower /\ t_local t = 1.
 Proof. exact never_local_on_follower. Qed.
 Print Assumptions C20_never_local_on_follower_partial.
+
+(* The follower's connection pool: a connection on which a forwarded request timed out is never
+   used again, none with an owed answer stays in the pool, and every forwarded request that is
+   answered is answered with the leader's results for THAT request (ids), for every sequence of
+   requests and every choice of slow ones. *)
+Theorem C20_pool_transparent : forall ss,
+  let '(rs, st') := forward_all false pstate0 ss in
+  Forall2 (fun s r => r = Some (ps_id s) \/ (r = None /\ ps_slow s = true)) ss rs
+  /\ pl_reused st' = false /\ owed st' = 0%nat.
+Proof. exact pool_transparent0. Qed.
+Print Assumptions C20_pool_transparent.
